@@ -25,7 +25,7 @@ STORES = ["simple_class_rules", "complex_class_rules", "simple_id_rules", "compl
 
 
 def check(run):
-    for cfg in ("A", "C"):
+    for cfg in run.cfgs("A", "C"):
         F = run.facts(cfg)
         run.guard("C17.1.partition", cfg, lambda: rule_partition(run, F, cfg))
         run.guard("C17.2.prefix-agreement", cfg, lambda: rule_prefix(run, F, cfg))
